@@ -31,25 +31,63 @@ CYC_SWEEPS = 6
 
 # ----------------------------------------------------------------------------- chains
 
-def make_chain(rng, L, cyclic, sym_wrap=False, unit_norm=None, cplx=True):
-    """site dependent, non exchange symmetric two-site terms + one-site terms"""
+def make_chain(rng, L, cyclic, sym_wrap=False, unit_norm=None, cplx=True, scale=1.0, h1scale=0.5, spelled=None):
+    """site dependent, non exchange symmetric two-site terms + one-site terms, in every accepted spelling:
+    explicit keys (ascending or descending), or a default term (key None) plus bond specific terms keyed in
+    either order (the periodic boundary bond as (L-1, 0) or (0, L-1)); H1 explicit or default + specific.
+    Returns (ham, H2ref, H1ref): the reference dicts hold each bond / site once, oriented as the user keyed it
+    (the statement's sum rule), whatever spelling was handed to quimb."""
     import quimb.tensor as qtn
 
     nb = L if (cyclic and L > 2) else L - 1
-    H2 = {}
-    for b in range(nb):
-        h = U.rand_herm(rng, 4, cplx)
+    bonds = [(b, (b + 1) % L) for b in range(nb)]
+
+    def term():
+        h = U.rand_herm(rng, 4, cplx, scale)
         if unit_norm is not None:
             h = h * (unit_norm / np.linalg.norm(h))
-        key = (b, (b + 1) % L)
-        if cyclic and b == L - 1 and sym_wrap:
-            h = (h + U.flip2(h)) / 2.0
-        H2[key] = h
-    H1 = None
+        return h
+
+    if spelled is None:
+        spelled = bool(unit_norm is None and rng.random() < 0.4)
+    H2ref = {}
+    if spelled:
+        default = term()
+        H2 = {None: default}
+        nspec = int(rng.integers(1, max(2, nb)))
+        spec = set(int(x) for x in rng.choice(nb, size=min(nspec, nb), replace=False))
+        if cyclic and L > 2 and rng.random() < 0.6:
+            spec.add(nb - 1)             # the boundary bond, keyed either way
+        for b, key in enumerate(bonds):
+            if b in spec:
+                k2 = key if rng.random() < 0.5 else (key[1], key[0])
+                H2[k2] = term()
+                H2ref[k2] = H2[k2]
+            else:
+                H2ref[key] = default
+    else:
+        H2 = {}
+        for b, key in enumerate(bonds):
+            h = term()
+            if cyclic and b == L - 1 and sym_wrap:
+                h = (h + U.flip2(h)) / 2.0
+            k2 = key if (unit_norm is not None or rng.random() < 0.7) else (key[1], key[0])
+            H2[k2] = h
+            H2ref[k2] = h
+    H1, H1ref = None, None
     if unit_norm is None and rng.random() < 0.7:
-        H1 = {i: U.rand_herm(rng, 2, cplx, 0.5) for i in range(L)}
-    ham = qtn.LocalHam1D(L, H2=H2, H1=H1, cyclic=cyclic)
-    return ham, H2, H1
+        if spelled and rng.random() < 0.6:
+            d1 = U.rand_herm(rng, 2, cplx, h1scale)
+            H1 = {None: d1}
+            H1ref = {i: d1 for i in range(L)}
+            for i in rng.choice(L, size=int(rng.integers(0, L)), replace=False):
+                H1[int(i)] = U.rand_herm(rng, 2, cplx, h1scale)
+                H1ref[int(i)] = H1[int(i)]
+        else:
+            H1 = {i: U.rand_herm(rng, 2, cplx, h1scale) for i in range(L)}
+            H1ref = dict(H1)
+    ham = qtn.LocalHam1D(L, H2=dict(H2), H1=(dict(H1) if H1 is not None else None), cyclic=cyclic)
+    return ham, H2ref, H1ref
 
 
 def dense_ham(H2, H1, L):
@@ -84,6 +122,7 @@ class Obj:
         self.sdt = dt0
         self.dt0 = dt0
         self.sweeps = 0
+        self.pending = False     # specification view: the last call was made with queue=True
         self.exc = ""
         try:
             kw = {"dt": dt0 * grain} if dt0 != DTNONE else {}
@@ -98,7 +137,7 @@ class Obj:
                 "dt0": self.dt0, "t0": self.t, "grain_inv": int(round(1 / self.grain)), "exc": self.exc,
                 "split": {k: (v if isinstance(v, (int, str)) else str(v)) for k, v in self.split.items()}}
 
-    def call(self, op, order, T=None, ts=None, dt=DTNONE, tol_dt=None):
+    def call(self, op, order, T=None, ts=None, dt=DTNONE, tol_dt=None, q=False, d=None, fp=None):
         """perform one public call under the recorder and return its trace record"""
         g = self.grain
         log = U.GateLog()
@@ -124,13 +163,21 @@ class Obj:
                     for pt in self.tebd.at_times([x * g for x in ts], order=order, progbar=False, **kw):
                         yields.append(U.snap_time(self.tebd.t, g))
                 elif op == "step":
+                    if q:
+                        kw["queue"] = True
                     self.tebd.step(order=order, **kw)
+                elif op == "sweep":
+                    self.tebd.sweep("right" if d == "R" else "left", 0.5 * fp, queue=bool(q), **kw)
         except Exception as ex:  # noqa
             exc = type(ex).__name__
         grecs, exps = U.gate_records(log, self.ham.terms, self.imag, g)
         tq = U.snap_time(self.tebd.t, g)
         dtu = U.snap_time(self.tebd._dt, g) if self.tebd._dt is not None else DTNONE
-        rec = {"ev": "call", "tid": self.tid, "op": op, "order": order, "dt": dt, "tolmode": tolmode,
+        newdt = None if op in ("step", "sweep") else (dtu if tolmode else (self.dt0 if dt == DTNONE else dt))
+        rec = {"ev": "call", "tid": self.tid, "op": op, "order": order, "dt": dt, "tolmode": tolmode, "q": bool(q),
+               "d": d or "", "fp": fp or 0,
+               # input description: the step is changed while a sweep is queued (queued fraction is relative to _dt)
+               "dtchange_queued": bool(self.pending and newdt is not None and newdt != self.sdt),
                "dtwant": tol_dt if tolmode else 0,
                "exc": exc, "gates": grecs, "tgrid": tq is not None, "t": tq if tq is not None else 0,
                "dtgrid": dtu is not None, "dtused": dtu if dtu is not None else 0,
@@ -162,7 +209,10 @@ class Obj:
             self.dense = False       # bonds reached the cap: later states are truncated, only the gate log is judged
         # advance the specification's view of the object
         if not exc and not (op == "update_to" and T < self.t):
-            if op == "step":
+            self.pending = bool(q)
+            if op == "sweep":
+                pass
+            elif op == "step":
                 self.t = self.t + (self.sdt if dt == DTNONE else dt)
             else:
                 self.t = target
@@ -220,14 +270,30 @@ def random_history(seed, tid, quick):
         op = kinds[int(rng.integers(len(kinds)))]
         span = 4 if (cyclic and dense) else (7 if order == 4 else 10)
         if op == "step":
-            dt = DTNONE if rng.random() < 0.5 else int(rng.integers(1, 5))
-            recs.append(ob.call("step", order, dt=dt))
+            if rng.random() < 0.25:
+                # a short run of direct calls with per-call dt and queue flags (queued sweeps merge across them)
+                for _j in range(int(rng.integers(1, 4))):
+                    dt = DTNONE if rng.random() < 0.35 else int(rng.integers(1, 5))
+                    if rng.random() < 0.3:
+                        recs.append(ob.call("sweep", 0, dt=dt, q=bool(rng.random() < 0.6),
+                                            d="R" if rng.random() < 0.5 else "L", fp=int(rng.integers(1, 3))))
+                    else:
+                        recs.append(ob.call("step", int(rng.choice([1, 2, 4])) if not (cyclic and dense) else order,
+                                            dt=dt, q=bool(rng.random() < 0.7)))
+                    if recs[-1]["exc"]:
+                        break
+            else:
+                dt = DTNONE if rng.random() < 0.5 else int(rng.integers(1, 5))
+                recs.append(ob.call("step", order, dt=dt, q=bool(rng.random() < 0.3)))
         else:
             if tolmode:
                 dt, tol_dt = DTNONE, int(rng.choice([2, 4])) if order != 1 else int(rng.choice([1, 2, 4]))
             else:
                 tol_dt = None
                 dt = int(rng.integers(1, 5)) if (ob.dt0 == DTNONE or rng.random() < 0.5) else DTNONE
+                if ob.pending and rng.random() < 0.8:
+                    # keep the step in force while a sweep is queued (changing it is the separate case dtchange_queued)
+                    dt = ob.sdt if ob.sdt != ob.dt0 else DTNONE
                 if cyclic and dense:
                     dt = max(dt, 2) if dt != DTNONE else dt
             if op == "update_to":
@@ -243,6 +309,14 @@ def random_history(seed, tid, quick):
                 recs.append(ob.call("at_times", order, ts=ts, dt=dt, tol_dt=tol_dt))
         if recs[-1]["exc"]:
             break
+    if ob.pending and not recs[-1]["exc"]:
+        # the final drain: whatever is still queued must come out with the right duration
+        if rng.random() < 0.5:
+            recs.append(ob.call("step", int(rng.choice([1, 2, 4])) if not (cyclic and dense) else 1,
+                                dt=DTNONE if rng.random() < 0.5 else int(rng.integers(1, 5))))
+        else:
+            recs.append(ob.call("update_to", int(rng.choice([1, 2])), T=ob.t + int(rng.integers(0, 4)),
+                                dt=ob.sdt if ob.sdt != ob.dt0 else DTNONE))
     return recs
 
 
@@ -267,8 +341,10 @@ def replay_behaviour(beh, seed, tid):
             r = ob.call("update_to", int(a["order"]), T=int(a["T"]), dt=int(a["dt"]))
         elif c["op"] == "at_times":
             r = ob.call("at_times", int(a["order"]), ts=[int(x) for x in a["ts"]], dt=int(a["dt"]))
+        elif c["op"] == "sweep":
+            r = ob.call("sweep", 0, dt=int(a["dt"]), q=bool(a["q"]), d=a["d"], fp=int(a["fp"]))
         else:
-            r = ob.call("step", int(a["order"]), dt=int(a["dt"]))
+            r = ob.call("step", int(a["order"]), dt=int(a["dt"]), q=bool(a.get("q", False)))
         r["model_t"] = int(e["t"])
         recs.append(r)
         if r["exc"]:
@@ -307,10 +383,12 @@ def ham_case(rng, k):
             cn = _coord_numbers(und)
             if kind == "1d-default":
                 h2 = U.rand_gint_matrix(rng, 4)
-                special = pairs[int(rng.integers(len(pairs)))]
+                sp0 = pairs[int(rng.integers(len(pairs)))] if k % 4 else pairs[-1]
+                special = sp0 if rng.random() < 0.4 else (sp0[1], sp0[0])     # ascending / descending / (0, L-1)
                 hs = U.rand_gint_matrix(rng, 4)
                 H2 = {None: h2, special: hs}
-                sup2 = {p: (hs if p == special else h2) for p in pairs}
+                sup2 = {p: h2 for p in pairs if p != sp0}
+                sup2[special] = hs
                 lcm = 2 if L > 2 else 1
                 h1 = lcm * U.rand_gint_matrix(rng, 2)
                 extra = int(rng.integers(L))
@@ -465,10 +543,7 @@ def conv_case(rng, k, L, cyclic, order, imag=False):
     rec = {"ev": "conv", "tid": 530000 + k, "L": L, "cyc": bool(cyclic), "order": order, "imag": bool(imag),
            "symmetric_splitting": not (cyclic and L % 2 == 1), "exc": "", "above_floor": False, "r1": 0, "r2": 0}
     try:
-        nb = L if cyclic else L - 1
-        H2 = {(b, (b + 1) % L): U.rand_herm(rng, 4, True, 0.6) for b in range(nb)}
-        H1 = {i: U.rand_herm(rng, 2, True, 0.4) for i in range(L)}
-        ham = qtn.LocalHam1D(L, H2=H2, H1=H1, cyclic=cyclic)
+        ham, H2, H1 = make_chain(rng, L, cyclic, scale=0.6, h1scale=0.4, spelled=bool(k % 2))
         Hd = dense_ham(H2, H1, L)
         psi0 = qtn.MPS_rand_state(L, 1 if cyclic else 2, cyclic=cyclic, dtype="complex128", seed=int(rng.integers(1 << 30)))
         p0 = U.dense_state(psi0, L)
@@ -606,6 +681,79 @@ def tgen_case(rng, k):
     return rec
 
 
+def su_case(rng, k):
+    """SimpleUpdateGen (update = sequential / parallel) and TEBDGen, untruncated (bonds saturated), on chains and
+    a star, for grouped / sequential / reversed / random bond orderings: every applied gate and layer boundary is
+    logged; the state must be the product of the applied gates, gates of one parallel layer must be disjoint"""
+    import quimb.tensor as qtn
+
+    shapes = ["path4", "path5", "star", "path4", "path5", "path6"]
+    shape = shapes[k % len(shapes)]
+    update = ["parallel", "sequential"][(k // len(shapes)) % 2] if k % 7 else "tebdgen"
+    okind = ["sequential", "grouped", "reversed", "random", "sort"][(k // 2) % 5]
+    nsweeps = int(rng.integers(1, 4))
+    tau = 0.25
+    rec = {"ev": "su", "tid": 570000 + k, "shape": shape, "update": update, "ordering": okind, "nsweeps": nsweeps,
+           "exc": "", "gates": [], "npairs": 0, "dg": 0, "dq": 0}
+    try:
+        if shape == "star":
+            edges = [(0, 1), (0, 2), (0, 3)]
+            n = 4
+            psi0 = qtn.TN_from_edges_rand(edges, D=2, phys_dim=2, seed=int(rng.integers(1 << 30)))
+        else:
+            n = int(shape[-1])
+            edges = [(i, i + 1) for i in range(n - 1)]
+            psi0 = qtn.MPS_rand_state(n, bond_dim=2 ** (n // 2), seed=int(rng.integers(1 << 30)))
+        terms = {e: U.rand_herm(rng, 4, False, 1.0) for e in edges}
+        ham = qtn.LocalHamGen(terms)
+        pairs = sorted(ham.terms)
+        rec["npairs"] = len(pairs)
+        if okind == "sequential":
+            ordering = list(pairs)
+        elif okind == "reversed":
+            ordering = list(reversed(pairs))
+        elif okind == "grouped":
+            ordering = [p for p in pairs if p[0] % 2 == 0] + [p for p in pairs if p[0] % 2 == 1]
+        elif okind == "random":
+            ordering = [pairs[i] for i in rng.permutation(len(pairs))]
+        else:
+            ordering = "sort"
+        D = psi0.max_bond()
+        v0 = np.asarray(psi0.to_dense([psi0.site_ind(i) for i in range(n)])).reshape(-1)
+        if update == "tebdgen":
+            cls = qtn.TEBDGen
+            # (no gauges: the local split is not the state's Schmidt decomposition, so leave room instead of D)
+            obj = cls(psi0, ham, tau=tau, D=64, cutoff=0.0, imag=True, ordering=ordering,
+                      compute_energy_final=False, progbar=False)
+        else:
+            cls = qtn.SimpleUpdateGen
+            obj = cls(psi0, ham, tau=tau, D=D, cutoff=0.0, gauge_smudge=1e-14, ordering=ordering, update=update,
+                      compute_energy_final=False, progbar=False)
+        log = []
+        with U.recording_su(cls, log):
+            obj.evolve(nsweeps, tau=tau, progbar=False)
+        ref = v0
+        layer, worst = 0, 0
+        for e in log:
+            if e[0] == "postlayer":
+                layer += 1
+                continue
+            _, where, G = e
+            w = pairs.index(tuple(sorted(where)))
+            rec["gates"].append([layer, w, int(where[0]), int(where[1])])
+            worst = max(worst, qdiff(G, sla.expm(-tau * U.oriented_term(ham.terms, where)), 1e-9))
+            ref = U.apply_local(ref, G, list(where), n)
+        rec["dg"] = int(worst)
+        st = obj.state
+        got = np.asarray(st.to_dense([st.site_ind(i) for i in range(n)])).reshape(-1)
+        # direction only (simple update normalises, TEBDGen does not); fix the global sign/phase by the overlap
+        got, ref = got / np.linalg.norm(got), ref / np.linalg.norm(ref)
+        rec["dq"] = int(qdiff(abs(np.vdot(ref, got)), 1.0, 1e-9))
+    except Exception as ex:  # noqa
+        rec["exc"] = type(ex).__name__
+    return rec
+
+
 # ----------------------------------------------------------------------------- run
 
 MAIN_ACTIONS = ("UpdateTo", "AtTimes", "Step")
@@ -613,7 +761,7 @@ CLAUSES = ["Returns", "BackwardsRejectedCleanly", "GatesOnGrid", "LayersComplete
            "StepsWithinDt", "Symmetric", "TimeExact", "QueueDrained", "AtTimesYields", "GateIsExpmOfTerm",
            "DenseEqualsProduct", "NormPreserved", "ImagNormalised", "HamSumExact", "TermKeysSorted",
            "HamSum", "ExpmOfCurrentTerm", "ConvergenceMeasurable", "ConvergenceOrder", "TermFractions",
-           "LayersCommute", "LayerUniform",
+           "LayersCommute", "LayerUniform", "ParallelLayerDisjoint", "SweepAppliesEveryTerm",
            "model: TimeExact QueueDrained ProductFormula ClassSumsOK StepsWithinDt Symmetric ImagNormalised "
            "WrapOriented TotalSums + ASSUME ChainOK GatesRoundTrip"]
 
@@ -632,15 +780,20 @@ def run(ctx):
     rng = np.random.default_rng(1000 + seed)
 
     # 1. TLC: every history of public calls of the implementation-shaped model satisfies the property level
+    #    (queue=True of step()/sweep() is public; changing _dt while a sweep is queued is the named deviation KF-C11-2)
     ctx.model_check("MC_C11", "MC_quick.cfg" if quick else "MC_thorough.cfg", name="tebd-histories",
                     require_actions=MAIN_ACTIONS, env=TLC_ENV, timeout=1500)
     if not quick:
         ctx.model_check("MC_C11", "MC_thorough_ts.cfg", name="tebd-histories-at_times<=3", require_actions=MAIN_ACTIONS,
                         env=TLC_ENV, timeout=1500)
+        ctx.model_check("MC_C11", "MC_sweeps.cfg", name="tebd-histories-with-direct-sweeps",
+                        require_actions=MAIN_ACTIONS + ("Sweep",), env=TLC_ENV, timeout=1500)
+        ctx.model_check("MC_C11", "MC_pubqueue_fix.cfg", name="dt-change-while-queued-with-proposed-repair",
+                        require_actions=MAIN_ACTIONS, env=TLC_ENV, timeout=1500)
     selftests = (("MC_branches.cfg", "NotAllBranches", "all five branches of sweep's queue logic are reached"),
                  ("MC_imagsite.cfg", "ImagNormalised", "pre-fix 7f3de1c3: left sweep renormalises site 1, order 1 ends unnormalised"),
                  ("MC_wrap.cfg", "WrapOriented", "pre-fix b5edf86a: wrap-around gate applied with its legs exchanged"),
-                 ("MC_pubqueue.cfg", "TotalSums", "undocumented step(queue=True) followed by a change of dt mis-scales the queued sweep"))
+                 ("MC_pubqueue.cfg", "ProductFormula", "KF-C11-2: step(queue=True) followed by update_to with another dt mis-scales the queued sweep"))
     for cfg, inv, what in selftests:
         r = T.run_tlc("MC_C11", cfg, ctx.spec_dir, workers=4, allow_violation=True, scratch=ctx.scratch, timeout=600, env=TLC_ENV)
         if r.violated != inv:
@@ -653,7 +806,7 @@ def run(ctx):
     # 2. S->C: call sequences simulated by TLC, replayed on real TEBD objects
     nsim = 40 if quick else 400
     res = T.run_tlc("MC_C11", "MC_sim.cfg", ctx.spec_dir, workers=1, coverage=False, simulate="num=%d" % nsim,
-                    depth=4, seed=11 + seed, scratch=ctx.scratch, timeout=900, env=TLC_ENV)
+                    depth=5, seed=11 + seed, scratch=ctx.scratch, timeout=900, env=TLC_ENV)
     behs = split_behaviours(T.parse_printed_json(res.output))
     if len(behs) < nsim // 2:
         raise MachineryError("could not read the simulated behaviours back (%d of %d)" % (len(behs), nsim))
@@ -701,6 +854,8 @@ def run(ctx):
         orecs.append(genconv_case(rng, k))
     for k in range(6 if quick else 48):
         orecs.append(tgen_case(rng, k))
+    for k in range(28 if quick else 280):
+        orecs.append(su_case(rng, k))
     ctx.sample({"conv": [{kk: r[kk] for kk in ("L", "cyc", "order", "imag", "r1", "r2")} for r in conv[:8]]})
     # one TLC start per 4000 records (trace ids: replays 0.., histories 100000.., objects 500000..)
     fails += ctx.validate("C11_Trace", "Trace.cfg", srecs + hrecs + orecs, name="replay+history+objects",
@@ -716,7 +871,8 @@ def run(ctx):
     ctx.clauses.update(CLAUSES)
     ctx.assumptions += [
         "times are whole grains (1/16 or 1/64); coefficients are snapped onto (p + q s)/2 grains with tolerance 2e-7 (unique: |q s - p| >= 1.3e-4 for |q| <= 5000)",
-        "public calls are update_to / at_times / step with the documented parameters; sweep(..., queue=True) and step(queue=True) are internal (undocumented parameter)",
+        "public calls are update_to / at_times / step(order, dt, queue) / sweep(direction, frac, dt, queue); with queue=True the product formula is judged on segments (everything since the queue was last empty)",
+        "changing _dt through update_to / at_times while a sweep is queued is the recorded finding KF-C11-2 (input flag dtchange_queued)",
         "update_to(T < t) is a documented rejection (NotImplementedError) and must leave the object untouched",
         "untruncated comparison on periodic chains only for the first %d sweeps (no canonical form: bonds double every sweep)" % CYC_SWEEPS,
         "convergence: quantised error ratios at n, 2n, 4n steps must be >= 0.7 * 2^order (order 1 on odd periodic chains)",
